@@ -515,7 +515,7 @@ pub fn run(e: &Engine) {
     e.campaign(
         "hostile-task-maps",
         "1-4 tasks with 0-9 generated key/value pairs each over the recognised keys and prefixes (timestamp keys, status, tag_, annotation_, dep_, UDAs) with hostile values (i64 extremes, beyond-calendar integers, beyond-i64 digit strings, odd integer syntax, empty, non-ASCII, separators, malformed tag/annotation/dependency keys, unknown statuses); stored through TaskData::update on in-memory or SQLite, reloaded, EVERY read method of Task, TaskData, WorkingSet, DependencyMap and Replica called under panic capture, with value oracles; non-trivial = the task set contains an uninterpretable timestamp, or a malformed tag / annotation / dependency key",
-        e.tier.pick(20_000, 1_000_000),
+        e.tier.pick(150_000, 4_000_000),
         || strategy(1),
         |c| serde_json::to_value(c).unwrap(),
         check_case,
